@@ -127,7 +127,14 @@ func (w *world) construct(o Op) O {
 			rets = w.hs[o.H].Copy(o.N)
 		}
 	case "conv":
-		rets = []SR{schema.StreamReaderWithConvert(w.hs[o.H], mkConv(*o.F))}
+		switch o.Via {
+		case "any": // (F is the identity: three nested conversions of the library = one identity conversion of the model)
+			rets = []SR{composeViaAny(w.hs[o.H])}
+		case "key":
+			rets = []SR{composeViaKey(w.hs[o.H])}
+		default:
+			rets = []SR{schema.StreamReaderWithConvert(w.hs[o.H], mkConv(*o.F))}
+		}
 	case "merge":
 		srs := make([]SR, len(o.Hs))
 		for i, h := range o.Hs {
@@ -205,6 +212,38 @@ func closeRecvCounts(ev []schema.VerifC19Event) []int {
 		counts = []int{}
 	}
 	return counts
+}
+
+// opTags: distribution classes of the construction ops of a case
+func opTags(ops []Op, add func(string)) {
+	arrOnly := true
+	for _, o := range ops {
+		switch o.K {
+		case "copy", "merge", "conv":
+			if o.Via != "" {
+				add("via:" + o.Via)
+			}
+		case "array":
+			if o.Spare == 1 {
+				add("array:arena-window")
+			}
+			for _, v := range o.Xs {
+				if v == 0 {
+					add("zero-chunk")
+				}
+			}
+		case "send":
+			if o.X != nil && !o.X.Err && o.X.V == 0 {
+				add("zero-chunk")
+			}
+		}
+		if o.K == "pipe" || o.K == "conv" {
+			arrOnly = false
+		}
+	}
+	if arrOnly {
+		add("arrays-only")
+	}
 }
 
 // ------------------------------------------------------------------ seq
@@ -399,6 +438,12 @@ func runSeq(c *Case) lib.Result {
 	for t := range tags {
 		res.Tags = append(res.Tags, t)
 	}
+	opTags(c.Ops, func(t string) {
+		if !tags[t] {
+			tags[t] = true
+			res.Tags = append(res.Tags, t)
+		}
+	})
 	res.Tags = append(res.Tags, fmt.Sprintf("seqops:%d", (len(c.Ops)/5)*5))
 	res.CoqTerm = lib.CoqApp("CaseSeq", coqOps(c.Ops), coqObs(out.Obs), lib.CoqNat(out.NFwd), natList(out.RCl))
 	return res
@@ -813,6 +858,21 @@ func runConcOnce(c *Case, seed uint64) lib.Result {
 		if wr.Late {
 			tags = append(tags, "late-writer")
 			break
+		}
+	}
+	seenTag := map[string]bool{}
+	opTags(c.Ops, func(t string) {
+		if !seenTag[t] && t != "arrays-only" {
+			seenTag[t] = true
+			tags = append(tags, t)
+		}
+	})
+	for _, wr := range c.Writers {
+		for _, x := range wr.Items {
+			if !x.Err && x.V == 0 && !seenTag["zero-chunk"] {
+				seenTag["zero-chunk"] = true
+				tags = append(tags, "zero-chunk")
+			}
 		}
 	}
 	res.Tags = tags
